@@ -23,11 +23,13 @@ theorem BodyFactsH.mono {sub : Rebuild w} {body : Nat → Mem w → Mem w} {M : 
     (h : BodyFactsH sub body M N) (hle : N' ≤ N) : BodyFactsH sub body M N' :=
   ⟨fun k hk => h.unwritten k (by omega), fun k hk => h.known k (by omega)⟩
 
-/-- `constants_sound` with a horizon. -/
-theorem constants_sound_h (s : Rebuild w) (ps : List (Rebuild w)) (sub : Rebuild w) (C : List Int)
+/-- `constants_sound` with a horizon; the soundness of `compare` is needed only for the `known` entries of
+`sub.written` and the entries of `sub.pending`. -/
+theorem constants_sound_r (s : Rebuild w) (ps : List (Rebuild w)) (sub : Rebuild w) (C : List Int)
     (m0 : Mem w) (body : Nat → Mem w → Mem w) (N : Nat)
     (hgood : ∀ c ∈ C, Good s ps sub C c)
-    (hcmp : ∀ v e, compare s ps (Expr.var v) e = .ok true → ev e m0 = m0 v)
+    (hcmp : ∀ v e, (mGet sub.written v = some (.known e) ∨ mGet sub.pending v = some e) →
+      compare s ps (Expr.var v) e = .ok true → ev e m0 = m0 v)
     (hb : BodyFactsH sub body (run body sub.pending m0) N) :
     (∀ k, k ≤ N → ∀ c ∈ C, run body sub.pending m0 k c = m0 c) ∧
     (∀ k, k < N → ∀ c ∈ C, mid body sub.pending m0 k c = m0 c) := by
@@ -48,7 +50,7 @@ theorem constants_sound_h (s : Rebuild w) (ps : List (Rebuild w)) (sub : Rebuild
           | some p =>
             simp only [hp] at hcand
             rw [hcand.2.2]; exact fun x hx => List.mem_append_left _ hx
-        rw [mid, hb.known k hk c wr hw, ← hcmp c wr hcand.1]
+        rw [mid, hb.known k hk c wr hw, ← hcmp c wr (Or.inl hw) hcand.1]
         apply ev_congr
         intro x hx
         rcases hvs x (hsub x hx) with rfl | hxC
@@ -76,7 +78,7 @@ theorem constants_sound_h (s : Rebuild w) (ps : List (Rebuild w)) (sub : Rebuild
             exact ⟨hcand.2.1, by rw [hcand.2.2]; exact fun x hx => List.mem_append_right _ hx⟩
           | unknown => simp only [hw] at hcand
           | maybe => simp only [hw] at hcand
-      rw [run_pending hp, ← hcmp c p hpc.1]
+      rw [run_pending hp, ← hcmp c p (Or.inr hp) hpc.1]
       apply ev_congr
       intro x hx
       rcases hvs x (hpc.2 x hx) with rfl | hxC
@@ -91,6 +93,30 @@ theorem constants_sound_h (s : Rebuild w) (ps : List (Rebuild w)) (sub : Rebuild
       exact hnext k (hmid k (by omega) (ih (by omega)))
   exact ⟨hrun, fun k hk => hmid k hk (hrun k (by omega))⟩
 
+/-- `constants_sound` with a horizon. -/
+theorem constants_sound_h (s : Rebuild w) (ps : List (Rebuild w)) (sub : Rebuild w) (C : List Int)
+    (m0 : Mem w) (body : Nat → Mem w → Mem w) (N : Nat)
+    (hgood : ∀ c ∈ C, Good s ps sub C c)
+    (hcmp : ∀ v e, compare s ps (Expr.var v) e = .ok true → ev e m0 = m0 v)
+    (hb : BodyFactsH sub body (run body sub.pending m0) N) :
+    (∀ k, k ≤ N → ∀ c ∈ C, run body sub.pending m0 k c = m0 c) ∧
+    (∀ k, k < N → ∀ c ∈ C, mid body sub.pending m0 k c = m0 c) :=
+  constants_sound_r s ps sub C m0 body N hgood (fun v e _ h => hcmp v e h) hb
+
+/-- … with `compare` sound on expressions in normal form only (`Canon`), the written and pending expressions
+being in normal form. -/
+theorem constants_sound_c (s : Rebuild w) (ps : List (Rebuild w)) (sub : Rebuild w) (C : List Int)
+    (m0 : Mem w) (body : Nat → Mem w → Mem w) (N : Nat)
+    (hgood : ∀ c ∈ C, Good s ps sub C c)
+    (hcanon : ∀ v p, mGet sub.pending v = some p → Canon p)
+    (hcanonW : ∀ v e, mGet sub.written v = some (.known e) → Canon e)
+    (hcmp : ∀ v e, Canon e → compare s ps (Expr.var v) e = .ok true → ev e m0 = m0 v)
+    (hb : BodyFactsH sub body (run body sub.pending m0) N) :
+    (∀ k, k ≤ N → ∀ c ∈ C, run body sub.pending m0 k c = m0 c) ∧
+    (∀ k, k < N → ∀ c ∈ C, mid body sub.pending m0 k c = m0 c) :=
+  constants_sound_r s ps sub C m0 body N hgood
+    (fun v e hve h => hcmp v e (hve.elim (hcanonW v e) (hcanon v e)) h) hb
+
 /-- **`constantsAmong_sound` with a horizon.** -/
 theorem constantsAmong_sound_h (s : Rebuild w) (ps : List (Rebuild w)) (sub : Rebuild w) (vars : List Int)
     (C : List Int) (m0 : Mem w) (body : Nat → Mem w → Mem w) (N : Nat)
@@ -100,6 +126,18 @@ theorem constantsAmong_sound_h (s : Rebuild w) (ps : List (Rebuild w)) (sub : Re
     (∀ k, k ≤ N → ∀ c ∈ C, run body sub.pending m0 k c = m0 c) ∧
     (∀ k, k < N → ∀ c ∈ C, mid body sub.pending m0 k c = m0 c) :=
   constants_sound_h s ps sub C m0 body N (constantsAmong_good s ps sub vars C hnd hC) hcmp hb
+
+/-- **`constantsAmong_sound` with a horizon, `compare` sound on normal forms.** -/
+theorem constantsAmong_sound_c (s : Rebuild w) (ps : List (Rebuild w)) (sub : Rebuild w) (vars : List Int)
+    (C : List Int) (m0 : Mem w) (body : Nat → Mem w → Mem w) (N : Nat)
+    (hC : constantsAmong s ps sub vars = .ok C) (hnd : vars.Nodup)
+    (hcanon : ∀ v p, mGet sub.pending v = some p → Canon p)
+    (hcanonW : ∀ v e, mGet sub.written v = some (.known e) → Canon e)
+    (hcmp : ∀ v e, Canon e → compare s ps (Expr.var v) e = .ok true → ev e m0 = m0 v)
+    (hb : BodyFactsH sub body (run body sub.pending m0) N) :
+    (∀ k, k ≤ N → ∀ c ∈ C, run body sub.pending m0 k c = m0 c) ∧
+    (∀ k, k < N → ∀ c ∈ C, mid body sub.pending m0 k c = m0 c) :=
+  constants_sound_c s ps sub C m0 body N (constantsAmong_good s ps sub vars C hnd hC) hcanon hcanonW hcmp hb
 
 /-- `GetBothFacts` for the rounds `k < N`. -/
 def GetBothFactsH (s : Rebuild w) (ps : List (Rebuild w)) (sub : Rebuild w) (M : Nat → Mem w) (N : Nat) :
